@@ -81,7 +81,21 @@ def main():
     finally:
         sh(["git", "-C", "/repo", "worktree", "remove", "--force", wt])
         shutil.rmtree(wt, ignore_errors=True)
-        with open(os.path.join(d, "result.json"), "w") as fd:
+        rp = os.path.join(d, "result.json")
+        if os.path.exists(rp):
+            # keep the verdicts of checks that were not re-run this time (other properties / seeds)
+            try:
+                prev = json.load(open(rp))
+                merged = dict(prev.get("checks") or {})
+                merged.update(result["checks"])
+                result["checks"] = merged
+                if a.skip_confirm and result.get("confirmed") is None:
+                    for k in ("confirmed", "demo_unpatched_exit", "demo_patched_exit", "suite_patched_exit", "suite_tail"):
+                        if k in prev:
+                            result[k] = prev[k]
+            except Exception:
+                pass
+        with open(rp, "w") as fd:
             json.dump(result, fd, indent=1)
         print(json.dumps(result, indent=1)[:3000])
 
